@@ -16,6 +16,13 @@ from core import *
 
 NEEDS = ["Lang", "LangProofs", "Corr"]
 
+# repairs proposed by this module that are not yet in /repo: the check expects the loud failure until a repair is listed here
+# (or in VERIF_C05_FIXED=D151,D152,... for the validation of a patched tree), afterwards the value.
+#   D151 functions on literal-only arguments   D152 round(...)   D153 index_range with an integer-variable bound
+#   D154 the derivative notation dx/dt = ... on Python < 3.13
+LANDED = set()
+FIXED = LANDED | {x for x in os.environ.get("VERIF_C05_FIXED", "").split(",") if x}
+
 # ====================================================================================================== impl side (worker)
 def _vals(d):
     return {k: float(Fr(v)) for k, v in d.items()}
@@ -169,6 +176,7 @@ def _vec_a(case):
     mk = lambda a: {'vtype': 'constant', 'value': np.asarray(a, dtype=np.float64), 'shape': np.asarray(a).shape, 'dtype': 'float64'}
     args = {f'n/op/{k}': mk(v) for k, v in _vals(case["scal"]).items()}
     args.update({f'n/op/{k}': mk(v) for k, v in _vec_vars(case).items() if k != 'x'})
+    args.update({f'n/op/{k}': {'vtype': 'constant', 'value': np.int32(v), 'shape': (), 'dtype': 'int32'} for k, v in case.get("ints", {}).items()})
     x0 = np.array([float(Fr(v)) for v in case["x0"]], dtype=np.float64)
     n = case["n"]
     args['n/op/x'] = {'vtype': 'state_var', 'value': x0 if n else np.float64(x0[0]), 'shape': (n,) if n else (), 'dtype': 'float64'}
@@ -188,6 +196,7 @@ def _vec_b(case):
         x0 = np.array([float(Fr(v)) for v in case["x0"]], dtype=np.float64)
         variables = {'x': {'vtype': 'state_var', 'dtype': 'float', 'shape': (n,), 'value': x0} if n else f'output({x0[0]})'}
         variables.update(_vals(case["scal"]))
+        variables.update({k: int(v) for k, v in case.get("ints", {}).items()})      # declared by a bare integer
         variables.update({k: {'vtype': 'constant', 'dtype': 'float', 'shape': v.shape, 'value': v} for k, v in _vec_vars(case).items()})
         op = OperatorTemplate(name='op', equations=[case["eq"]], variables=variables)
         c = CircuitTemplate(name='c', nodes={'A': NodeTemplate(name='nA', operators=[op])})
@@ -198,6 +207,49 @@ def _vec_b(case):
         sel = np.asarray(sel).reshape(-1)
         assert sel.shape == (max(n, 1),), sel.shape
         return pyr.fracs(sel)
+    finally:
+        pyr.reset_pyrates()
+
+
+def _const_eqs(it):
+    s, form = it["s"], it["form"]
+    if form == "alg":
+        return [f"z = {s}", "x' = z + r"]
+    return [f"x' = {s}" if form == "prime" else f"d/dt * x = {s}"]
+
+
+def _const_a(it):
+    """right-hand side that is (or folds to) a pure number: direct evaluation of the parsed equation"""
+    import numpy as np
+    from pyrates.backend.parser import parse_equations
+    from pyrates.backend.computegraph import ComputeGraph
+    from pyr import frac
+    cg = ComputeGraph(backend='default')
+    mk = lambda v, vt: {'vtype': vt, 'value': np.float64(v), 'shape': (), 'dtype': 'float64'}
+    args = {'n/op/x': mk(0.5, 'state_var'), 'n/op/r': mk(float(Fr(it["r"])), 'constant')}
+    if it["form"] == "alg":
+        args['n/op/z'] = mk(0.0, 'state_var')
+    parse_equations(equations=[(e, 'n/op') for e in _const_eqs(it)], equation_args=args, cg=cg, def_shape=())
+    node = cg.var_updates['non-DEs']['z'] if it["form"] == "alg" else cg.var_updates['DEs']['x']
+    r = np.asarray(cg.eval_node(node), dtype=np.float64).reshape(-1)
+    assert r.shape == (1,), r.shape
+    return frac(r[0])
+
+
+def _const_b(it):
+    import numpy as np
+    from pyrates import OperatorTemplate, NodeTemplate, CircuitTemplate
+    import pyr
+    pyr.reset_pyrates()
+    try:
+        variables = {'x': 'output(0.5)', 'r': float(Fr(it["r"]))}
+        if it["form"] == "alg":
+            variables['z'] = 'variable(0.0)'
+        op = OperatorTemplate(name='op', equations=_const_eqs(it), variables=variables)
+        c = CircuitTemplate(name='c', nodes={'A': NodeTemplate(name='nA', operators=[op])})
+        func, args, names, smap = _compile(c)
+        r = np.array(func(*args), dtype=np.float64).reshape(-1)
+        return pyr.frac(r[int(np.asarray(smap['A/op/x']).reshape(-1)[0])])
     finally:
         pyr.reset_pyrates()
 
@@ -254,6 +306,25 @@ def impl(case):
             def one(eq=eq):
                 p = ExpressionParser(expr_str=eq, args={}, cg=ComputeGraph(backend='default'))
                 return [p.lhs, p.lhs_key, bool(p._diff_eq), p.rhs, p._assign_type]
+            outs.append(_guard(one))
+        return outs
+    if kind == "const":
+        return [{"a": _guard(_const_a, it), "b": _guard(_const_b, it)} for it in case["items"]]
+    if kind == "names":
+        from pyrates import OperatorTemplate, NodeTemplate, CircuitTemplate
+        import pyr
+        outs = []
+        for v in case["names"]:
+            def one(v=v):
+                pyr.reset_pyrates()
+                try:
+                    op = OperatorTemplate(name='op', equations=["x' = -x"], variables={'x': 'output(0.5)', v: 1.5})
+                    CircuitTemplate(name='c', nodes={'A': NodeTemplate(name='nA', operators=[op])}).get_run_func(
+                        'f', step_size=1e-3, file_name='m1', backend='default', solver='euler', float_precision='float64',
+                        vectorize=False, clear=False, in_place=False, verbose=False)
+                    return "accepted"
+                finally:
+                    pyr.reset_pyrates()
             outs.append(_guard(one))
         return outs
     if kind == "surg":
@@ -476,21 +547,50 @@ RHS = ["r + 1", "-x/tau + r", "2*r", "r^2 - (x + 1)*k", "k", "0.5", "a*(b + c) -
 
 def gen_lhs_case(rng):
     eqs, meta = [], []
-    for _ in range(12):
+    for _ in range(14):
         x = rng.choice(IDS + POOL); rhs = rng.choice(RHS); f = rng.random()
-        if f < 0.3:
+        if f < 0.25:
             eqs.append(f"d/dt * {x} = {rhs}"); meta.append(["doc", x, rhs])
-        elif f < 0.6:
+        elif f < 0.5:
             eqs.append(f"{x}' = {rhs}"); meta.append(["doc", x, rhs])
-        elif f < 0.7:
+        elif f < 0.58:
             eqs.append(f"d/dt{' ' * rng.randint(0, 2)}*{' ' * rng.randint(0, 2)}{x}{rng.choice([' = ', '= ', ' =', '='])}{rhs}"); meta.append(["var", x, rhs])
-        elif f < 0.8:
+        elif f < 0.66:
             eqs.append(f"{x}'{rng.choice([' = ', '= ', ' =', '='])}{rhs}"); meta.append(["var", x, rhs])
-        elif f < 0.9:
+        elif f < 0.72:
             eqs.append(f"{x} = {rhs}"); meta.append(["alg", x, rhs])
+        elif f < 0.82:
+            # the third notation: TypeError on Python 3.12 until D154; afterwards (x, DE, r) unless x ends in d
+            eqs.append(f"d{x}/dt = {rhs}"); meta.append(["doc" if "D154" in FIXED and not x.endswith("d") and "=" not in rhs else "leibniz", x, rhs])
+        elif f < 0.9:
+            a = rng.choice(["+=", "+=", "+=", "-=", "*=", "/="])
+            eqs.append(f"{x}{rng.choice([' ', ''])}{a}{rng.choice([' ', ''])}{rhs}"); meta.append(["aug", x, rhs])
+        elif f < 0.94:
+            eqs.append(rng.choice(["r + 1", "2*r", "-x/tau + r", "x <= 3", "r == 2", "a*(b + c) - d", "r >= k"])); meta.append(["noassign", "", ""])
         else:
-            eqs.append(f"d{x}/dt = {rhs}"); meta.append(["leibniz", x, rhs])
+            eqs.append(rng.choice([f"d/dt * {x} += {rhs}", f"{x}' += {rhs}", f"{x}' -= {rhs}", f"d/dt*{x} *= 2"])); meta.append(["de_aug", x, rhs])
     return dict(kind="lhs", eqs=eqs, meta=meta)
+
+
+RESERVED = ["y", "dy", "source_idx", "target_idx", "pi", "I", "E", "S", "Q", "O", "N", "oo", "zoo", "nan", "beta", "gamma", "Beta", "Gamma",
+            "exp", "log", "sin", "cos", "tan", "cot", "sec", "csc", "sinh", "cosh", "tanh", "sqrt", "abs"]
+
+
+def gen_names_case(rng):
+    """check_vname: names a variable may not have (reserved names, reserved parts) next to names that only look like them"""
+    parts = ["_buffer", "_delays", "_maxdelay", "_idx", "_hist"]
+    names = []
+    for _ in range(6):
+        f = rng.random()
+        if f < 0.3:
+            names.append(rng.choice(RESERVED))
+        elif f < 0.55:
+            names.append(rng.choice(["r", "v", "k", "x1"]) + rng.choice(parts) + rng.choice(["", "0", "_a"]))
+        elif f < 0.75:
+            names.append(rng.choice(["yy", "dy2", "pi2", "e", "s", "n", "Exp", "expo", "sine", "r_id", "hist", "r_buf", "idx", "delays", "x_v1", "weight", "t"]))
+        else:
+            names.append(rng.choice(POOL))
+    return dict(kind="names", names=[n for n in names if n != "x"])
 
 
 FUNCS = ["index_1d", "index_2d", "index_range", "index_axis", "identity", "past"]
@@ -534,9 +634,18 @@ def gen_call_case(rng):
                         f"index( w , {j} ) / 4 + ({a} + 2*index(v,{i}))*{b}", f"-index(v,{i})^2*{c}", f"no_op({a})*({b} + {c})",
                         f"index(v,{i}) + {a}*index(w, {j})^2", f"{a} - index(v,{i})", f"{a} - 2*index(v,{i})*{b}",
                         f"index( w , {j} ) / 4 - ({a} - index(v,{i}))*{b}", f"({a}-index(v,{i}))*{c} - index(w,{j})^2",
-                        f"no_op({a} + {b})*2", f"{c} - no_op({a} - {b})*{a}", f"-index(v,{i}) - index(w,{j})/2"])
+                        f"no_op({a} + {b})*2", f"{c} - no_op({a} - {b})*{a}", f"-index(v,{i}) - index(w,{j})/2",
+                        f"absv({a} - {b})*{c}", f"maxi({a}, {b}) - mini({c}, 0.5)", f"absv(-{a}) + maxi(index(v,{i}),{b})"])
         expect = "value"
+    elif cls < 0.74:
+        # functions applied to numeric literals only: NameError until D151
+        s = rng.choice([f"maxi(2, 3)*{a}", f"absv(-2.5) + {a}", f"mini(0.5, 2)*{a} - maxi(1,{b})", f"{a}*absv( -0.75 ) - maxi(1.5,0.25)^2"])
+        expect = "value" if "D151" in FIXED else "NameError"
     elif cls < 0.78:
+        # round = numpy.round (half to even): TypeError at sympify until D152
+        s = rng.choice([f"round({a}*2.5)", f"round({a}) + round(-{b}*0.5)", f"round({a}/4)*{c}", f"{c} - round( {a} + {b} )"])
+        expect = "value" if "D152" in FIXED else "TypeError"
+    elif cls < 0.84:
         # helper call inside a divisor (repaired by D63; w holds powers of two so that the values are exact)
         vecs["w"] = [dy_val(rng, True) for _ in range(4)]
         s = rng.choice([f"{a}/index(w,{j})", f"({a} + {b})/index(w, {j})*{c}", f"x - {a}/index(w,{j})", f"{a}/index(w,{j})^2 + {b}",
@@ -545,7 +654,7 @@ def gen_call_case(rng):
         for _ in range(4):
             p = {nm: dy_val(rng) for nm in names}; p[lhs] = dy_val(rng); pts.append(p)
         return dict(kind="call", lhs=lhs, eq=f"{lhs}' = {s}", s=s, pts=pts, vecs=vecs, expect="value")
-    elif cls < 0.9:
+    elif cls < 0.93:
         s = rng.choice([f"index(v + w, {i})", f"index(v*{a}, {i}) + {b}", f"{a}*index(w - v, {j})"]); expect = "KeyError"
     else:
         s = rng.choice([f"no_op({a}*({b} + {c}))", f"{a} + no_op(({b} + {c})*{a})"]); expect = "SyntaxError"
@@ -555,33 +664,68 @@ def gen_call_case(rng):
     return dict(kind="call", lhs=lhs, eq=f"{lhs}' = {s}", s=s, pts=pts, vecs=vecs, expect=expect)
 
 
-def gen_vec_case(rng):
+def gen_vec_case(rng, k=None):
     """index helpers on small vectors and matrices, vector-valued right-hand sides (component-wise meaning in Lang.eval)"""
     p, q = rng.sample(["r", "k", "weight", "x_v1"], 2)
     a, b, i, j, i2 = rng.randint(0, 1), rng.randint(0, 2), rng.randint(0, 2), rng.randint(0, 2), rng.randint(0, 2)
     c1 = rng.choice(["2.5e-1", ".5", "2", "+1.5", "1e0"])
-    s, n = rng.choice([
+    pick = (lambda l: l[k % len(l)]) if k is not None else rng.choice     # the first cases walk through every template
+    s, n = pick([
         (f"index_range(v, {a}, {a + 2})*{p} - x", 2), (f"index_range( v,{a},{a + 3} ) ** 2 * {c1} - x*{q}", 3),
         (f"index_axis(v)*{p} + w", 4), (f"index_2d(A, {i}, {j})*{p} - x", 0), (f"index_axis(A, {j}, 1)*{q} - x", 3),
         (f"index(A, {i}) + x*{p}", 3), (f"index_range(v,{a},{a + 2}) + index_range(w, {b}, {b + 2})*index(v,{i})", 2),
         (f"v*{p} - w^2", 4), (f"index_2d(A,{i},{j})*index_range(v,1,4) - index(A,{i2})", 3),
         (f"{c1}*index_2d( A , {i} , {j} )^2 - ({p} - index_2d(A,{j},{i}))*{q}", 0), (f"+index(A,{i})*{c1} - index_axis(A, {j}, 1)", 3)])
+    ints, b_err = {}, None
+    if rng.random() < 0.25 and not (k is not None and k < 11):
+        # a slice bound given by an integer constant: TypeError at compile time until D153 (direct evaluation works)
+        nv = rng.randint(2, 3)
+        s, n = rng.choice([(f"index_range(v, {a}, n)*{p} - x", nv - a), (f"index_range(w, 1, n+1) + x*{q}", nv),
+                           (f"index_range(v, n - 2, n)*{c1} - index_range(w,{b},{b + 2})", 2)])
+        ints = {"n": nv}
+        b_err = None if "D153" in FIXED else "TypeError"
     scal = {p: dy_val(rng), q: dy_val(rng)}
     vecs = {"v": [dy_val(rng) for _ in range(4)], "w": [dy_val(rng) for _ in range(4)]}
     mats = {"A": [[dy_val(rng) for _ in range(3)] for _ in range(3)]}
     x0 = [dy_val(rng) for _ in range(max(n, 1))]
-    return dict(kind="vec", eq=f"x' = {s}", s=s, n=n, scal=scal, vecs=vecs, mats=mats, x0=x0)
+    return dict(kind="vec", eq=f"x' = {s}", s=s, n=n, scal=scal, vecs=vecs, mats=mats, x0=x0, ints=ints, b_err=b_err)
+
+
+CONSTS = ["3/8", "1/(2*4)", "2^-3", "2**-2*3", "0.75*0.5", "(1+2)/4", "3/8 - 1/4", "-5/16", "1/4 + 1/8", "(3/2)^2/2", "7/2^3", "10/4",
+          "1e1/16", ".5/4", "3/4*1/2", "-(1/2)^3", "1/2 - 1/8 + 1/32", "5/(2*2*2)", "2", "0.5", "6/3", "3/2", "0.375", "-7/4"]
+CONST_FOLD = ["(1/4 + 1/8)*r", "r*(3/8) - 1/2^2", "r/4 + 3/8", "(3/2)^2*r - 5/16"]
+
+
+def gen_const_case(rng):
+    """equations whose whole right-hand side is a number (or folds to one next to a variable): rationals, products and powers of
+    literals, in both derivative notations and as an algebraic assignment; exact dyadic values"""
+    items = []
+    for _ in range(6):
+        fold = rng.random() < 0.2
+        s = rng.choice(CONST_FOLD if fold else CONSTS)
+        if rng.random() < 0.3:
+            s = s.replace("^", "**").replace("/", " / ")
+        items.append(dict(s=s, form=rng.choice(["prime", "ddt", "alg"]), r=dy_val(rng)))
+    return dict(kind="const", items=items)
 
 
 def gen_support_case(rng):
     names = rng.sample(["r", "rr", "k", "weight", "x_v1", "tau"], 3)
     a, b, c = names
     s = rng.choice([f"sin({a})*{b} - exp(-{c}^2)", f"pi*{a} + E^2*{b}", f"exp({a}*{b}) / (1 + {c}^2)", f"sqrt({a}^2 + 1)*cos(pi*{b})",
-                    f"tanh({a} + {b})**2 - {c}/pi", f"sin(cos({a}))*E - {b}", f"exp(1)*{a} - E*{b} + {c}", f"exp(-({a}-{b})^2/2)/sqrt(2*pi)"])
+                    f"tanh({a} + {b})**2 - {c}/pi", f"sin(cos({a}))*E - {b}", f"exp(1)*{a} - E*{b} + {c}", f"exp(-({a}-{b})^2/2)/sqrt(2*pi)",
+                    f"sigmoid({a} - {b})*{c}", f"sigmoid(0.5)*{a} - {b}",
+                    # a hyperbolic function next to its circular counterpart (one import list per model)
+                    f"sinh({a}*{b}) - sin({c})", f"tanh({a}*{b})*tan({c}/4)", f"cos({a})/cosh({b}*{c})", f"cos(2*cosh({a})) + sin({b}) - sinh({b})",
+                    # a right-hand side that is a pure number but not a float literal
+                    "1/(2*pi)", "E^2/4 - 0.5", "pi/4 - 1/3", "sqrt(2)/2", "exp(1)/3 + 1/7", "2/3"])
+    if not any(n in s for n in names):
+        return dict(kind="support", lhs="x", eq=rng.choice([f"x' = {s}", f"d/dt * x = {s}"]), s=s, pts=[{"x": "0"}] * 4, expect_err=None)
+    expect_err = "NameError" if "sigmoid(0.5)" in s and "D151" not in FIXED else None
     pts = []
     for _ in range(4):
         p = {nm: str(Fr(rng.randint(-12, 12), 8)) for nm in names}; p["x"] = "0"; pts.append(p)
-    return dict(kind="support", lhs="x", eq=f"x' = {s}", s=s, pts=pts)
+    return dict(kind="support", lhs="x", eq=f"x' = {s}", s=s, pts=pts, expect_err=expect_err)
 
 
 def nontrivial(case):
@@ -621,17 +765,24 @@ Fixpoint ok_comps (env : list (str * Qc)) (venv : list (str * list Qc)) (menv : 
 Definition ok_vitem (it : vitem) : bool :=
   let '(env, venv, menv, s, exp) := it in
   ok_comps (envq env) (venvq venv) (map (fun p => (s2l (fst p), snd p)) menv) (s2l s) 0 exp.
-Definition ok_lhs (p : string * (string * string * bool * string)) : bool :=
-  let '(s, (lhs, key, de, rhs)) := p in eqn_eqb (classify (s2l s)) (s2l lhs) (s2l key) de (s2l rhs).
-Definition raises_lhs (s : string) : bool := match classify (s2l s) with CRaises => true | _ => false end.
-Definition spec_lhs (p : string * (string * string * bool * string)) : bool :=
-  let '(x, (lhs, key, de, rhs)) := p in str_eqb (s2l lhs) (s2l x) && str_eqb (s2l key) (s2l x) && de.
+Definition LEIB : bool := @LEIB@.
+Definition ok_lhs (p : string * (string * string * bool * string * string)) : bool :=
+  let '(s, (lhs, key, de, rhs, asg)) := p in eqn_eqb (classify_gen LEIB (s2l s)) (s2l lhs) (s2l key) de (s2l rhs) (s2l asg).
+(* an exception: TypeError (false) must be predicted as CRaises, ValueError (true) as CValueError *)
+Definition raises_lhs (p : string * bool) : bool :=
+  match classify_gen LEIB (s2l (fst p)), snd p with CRaises, false => true | CValueError, true => true | _, _ => false end.
+Definition spec_lhs (p : string * (string * string * bool * string * string)) : bool :=
+  let '(x, (lhs, key, de, rhs, asg)) := p in str_eqb (s2l lhs) (s2l x) && str_eqb (s2l key) (s2l x) && de && str_eqb (s2l asg) (s2l "=").
+Definition ok_name (p : string * bool) : bool := Bool.eqb (vname_ok (s2l (fst p))) (snd p).
 Definition ok_surg (p : string * string * string * string) : bool :=
   let '(e, f, r, out) := p in ostr_eqb (process_func_call (s2l e) (s2l f) (s2l r)) (Some (s2l out)).
 Definition spec_surg (p : string * string * string * string * string * string) : bool :=
   let '(pre, f, args, post, r, out) := p in
   str_eqb (s2l out) ((s2l pre ++ s2l r ++ py_replace (s2l f ++ ["("%char] ++ s2l args ++ [")"%char]) (s2l r) (s2l post))%list).
 """
+
+
+HEADER = HEADER.replace("@LEIB@", "true" if "D154" in FIXED else "false")
 
 
 def cqs(d):
@@ -703,7 +854,7 @@ def lhs_terms(case, out):
         if isinstance(o, dict):
             raises.append((eq, o.get("type")))
         else:
-            t = f"({cstr(o[0])}, {cstr(o[1])}, {cbool(o[2])}, {cstr(o[3])})"
+            t = f"({cstr(o[0])}, {cstr(o[1])}, {cbool(o[2])}, {cstr(o[3])}, {cstr(o[4] if o[4] else '')})"
             ok.append(f"({cstr(eq)}, {t})")
             if m[0] == "doc":
                 spec.append(f"({cstr(m[1])}, {t})")
@@ -716,15 +867,50 @@ def compare_lhs(ctx, cases, outs, tag):
     for i, (c, o) in enumerate(zip(cases, outs)):
         ok, raises, spec = lhs_terms(c, o)
         terms_ok.append(clist(ok)); terms_spec.append(clist(spec))
-        terms_r.append(clist([cstr(eq) for eq, ty in raises]))
-        if any(ty != "TypeError" for eq, ty in raises) or any(m[0] == "doc" and isinstance(r, dict) for m, r in zip(c["meta"], o)):
+        terms_r.append(clist([f"({cstr(eq)}, {cbool(ty == 'ValueError')})" for eq, ty in raises]))
+        if any(ty not in ("TypeError", "ValueError") for eq, ty in raises) or any(m[0] == "doc" and isinstance(r, dict) for m, r in zip(c["meta"], o)):
             unexpected.append(i)
-    defs = (f"Definition oks : list (list (string * (string * string * bool * string))) := {clist(terms_ok)}.\n"
-            f"Definition specs : list (list (string * (string * string * bool * string))) := {clist(terms_spec)}.\n"
-            f"Definition rs : list (list string) := {clist(terms_r)}.\n")
+    T = "(string * (string * string * bool * string * string))"
+    defs = (f"Definition oks : list (list {T}) := {clist(terms_ok)}.\n"
+            f"Definition specs : list (list {T}) := {clist(terms_spec)}.\n"
+            f"Definition rs : list (list (string * bool)) := {clist(terms_r)}.\n")
     l = coq_lists(ctx, f"c05_lhs_{tag}", defs, ["mismatches (forallb ok_lhs) oks", "mismatches (forallb spec_lhs) specs",
                                                   "mismatches (forallb raises_lhs) rs"])
     return sorted(set(l[0]) | set(l[2])), sorted(set(l[1]) | set(unexpected))
+
+
+def compare_const(ctx, cases, outs, tag):
+    terms, bad = [], []
+    for i, (c, o) in enumerate(zip(cases, outs)):
+        its = []
+        for it, r in zip(c["items"], o):
+            if isinstance(r, dict) and "a" not in r or isinstance(r["a"], dict) or isinstance(r["b"], dict):
+                bad.append(i); continue
+            env = f"[({cstr('r')}, {cq(it['r'])})]"
+            if it["form"] == "alg":
+                its.append(f"({env}, [], {cstr(it['s'])}, [{cq(r['a'])}])")
+                its.append(f"({env}, [], {cstr('(' + it['s'] + ')+r')}, [{cq(r['b'])}])")
+            else:
+                its.append(f"({env}, [], {cstr(it['s'])}, [{cq(r['a'])}; {cq(r['b'])}])")
+        terms.append(clist(its))
+    l = coq_lists(ctx, f"c05_const_{tag}", f"Definition cases : list (list item) := {clist(terms)}.\n", ["mismatches ok_items cases"])
+    return sorted(set(bad) | set(l[0]))
+
+
+def compare_names(ctx, cases, outs, tag):
+    terms, bad = [], []
+    for i, (c, o) in enumerate(zip(cases, outs)):
+        ts = []
+        for v, r in zip(c["names"], o):
+            if r == "accepted":
+                ts.append(f"({cstr(v)}, true)")
+            elif isinstance(r, dict) and r.get("type") == "PyRatesException":
+                ts.append(f"({cstr(v)}, false)")
+            else:
+                bad.append(i)
+        terms.append(clist(ts))
+    l = coq_lists(ctx, f"c05_names_{tag}", f"Definition cases : list (list (string * bool)) := {clist(terms)}.\n", ["mismatches (forallb ok_name) cases"])
+    return sorted(set(bad) | set(l[0]))
 
 
 def compare_surg(ctx, cases, outs, tag):
@@ -769,17 +955,20 @@ def compare_vec(ctx, cases, outs, tag):
     for i, (c, o) in enumerate(zip(cases, outs)):
         if isinstance(o, dict) and ("a" not in o):
             bad.append(i); continue
-        if isinstance(o["a"], dict) or isinstance(o["b"], dict):
+        if c.get("b_err"):
+            if not (isinstance(o["b"], dict) and o["b"].get("type") == c["b_err"]) or isinstance(o["a"], dict):
+                bad.append(i); continue
+        elif isinstance(o["a"], dict) or isinstance(o["b"], dict):
             bad.append(i); continue
         n = max(c["n"], 1)
         venv = dict(c["vecs"])
-        env = dict(c["scal"])
+        env = dict(c["scal"]); env.update({k: str(v) for k, v in c.get("ints", {}).items()})
         if c["n"]:
             venv["x"] = c["x0"]
         else:
             env["x"] = c["x0"][0]
         menv = clist([f"({cstr(k)}, {clist([clist([cq(x) for x in r]) for r in m])})" for k, m in sorted(c["mats"].items())])
-        exp = clist([clist([cq(o["a"][k]), cq(o["b"][k])]) for k in range(n)])
+        exp = clist([clist([cq(o["a"][k])] + ([] if c.get("b_err") else [cq(o["b"][k])])) for k in range(n)])
         terms.append(f"({cqs(env)}, {cvecs(venv)}, {menv}, {cstr(c['s'])}, {exp})"); idx.append(i)
     if terms:
         l = coq_lists(ctx, f"c05_vec_{tag}", f"Definition cases : list vitem := {clist(terms)}.\n", ["mismatches ok_vitem cases"])
@@ -799,7 +988,8 @@ def coq_reading(ctx, strings, tag):
 
 def compare_support(ctx, cases, outs, tag):
     reads = coq_reading(ctx, [c["s"] for c in cases], tag)
-    ns = dict(sin=math.sin, cos=math.cos, exp=math.exp, sqrt=math.sqrt, tanh=math.tanh, pi=math.pi, E=math.e)
+    ns = dict(sin=math.sin, cos=math.cos, exp=math.exp, sqrt=math.sqrt, tanh=math.tanh, pi=math.pi, E=math.e,
+              sigmoid=lambda x: 1. / (1. + math.exp(-x)), sinh=math.sinh, cosh=math.cosh, tan=math.tan)
     off = []
     for i, (c, o, rd) in enumerate(zip(cases, outs, reads)):
         if rd is None or isinstance(o, dict):
@@ -856,7 +1046,7 @@ def check(ctx):
     pr = proof_gate(ctx, NEEDS)
     problem = proof_problem(pr)
     quick = ctx.tier == "quick"
-    n_expr, n_lhs, n_surg, n_call, n_sup, n_vec = (130, 12, 12, 40, 16, 40) if quick else (3000, 150, 150, 600, 200, 600)
+    n_expr, n_lhs, n_surg, n_call, n_sup, n_vec, n_nm, n_const = (130, 12, 12, 48, 24, 40, 6, 8) if quick else (3000, 150, 150, 700, 300, 600, 80, 100)
     if problem:
         n_expr *= 3
     if ctx.replay:
@@ -865,7 +1055,8 @@ def check(ctx):
     else:
         cases = (load_corpus("C05") + [gen_expr_case(ctx.rng) for _ in range(n_expr)] + [gen_lhs_case(ctx.rng) for _ in range(n_lhs)]
                  + [gen_surg_case(ctx.rng) for _ in range(n_surg)] + [gen_call_case(ctx.rng) for _ in range(n_call)]
-                 + [gen_support_case(ctx.rng) for _ in range(n_sup)] + [gen_vec_case(ctx.rng) for _ in range(n_vec)])
+                 + [gen_support_case(ctx.rng) for _ in range(n_sup)] + [gen_vec_case(ctx.rng, k) for k in range(n_vec)]
+                 + [gen_names_case(ctx.rng) for _ in range(n_nm)] + [gen_const_case(ctx.rng) for _ in range(n_const)])
     outs = run_impl(ctx, "c05", "impl", cases, per_case_timeout=120)
     K = lambda k: [i for i, c in enumerate(cases) if c["kind"] == k]
     bad_spec, bad_impl, crashed, guard_viol = [], [], [], {}
@@ -937,12 +1128,27 @@ def check(ctx):
             bad_spec.append(iv[j]); bad_impl.append(iv[j])
         ctx.note(f"vec: {len(iv)} equations with index/index_range/index_axis/index_2d on vectors and matrices "
                  f"({sum(max(cases[i]['n'], 1) for i in iv)} components x 2 paths); disagreements {len(b)}")
+    # --- right-hand sides that are pure numbers
+    ico = [i for i in K("const") if i not in crashed]
+    if ico:
+        b = compare_const(ctx, [cases[i] for i in ico], [outs[i] for i in ico], "main")
+        for j in b:
+            bad_spec.append(ico[j]); bad_impl.append(ico[j])
+        ctx.note(f"const: {sum(len(cases[i]['items']) for i in ico)} equations whose right-hand side is a pure number (x' =, d/dt * x =, algebraic; both paths); disagreements {len(b)}")
+    # --- variable names (check_vname)
+    inm = [i for i in K("names") if i not in crashed]
+    if inm:
+        b = compare_names(ctx, [cases[i] for i in inm], [outs[i] for i in inm], "main")
+        for j in b:
+            bad_spec.append(inm[j]); bad_impl.append(inm[j])
+        ctx.note(f"names: {sum(len(cases[i]['names']) for i in inm)} variable names through OperatorTemplate/check_vname vs Lang.vname_ok; disagreements {len(b)}")
     # --- support: values never decide (tolerance); an exception does (it is exact)
     isu = [i for i in K("support") if i not in crashed]
     if isu:
-        raised = [i for i in isu if isinstance(outs[i], dict)]
+        predicted = [i for i in isu if cases[i].get("expect_err") and isinstance(outs[i], dict) and outs[i].get("type") == cases[i]["expect_err"]]
+        raised = [i for i in isu if i not in predicted and (isinstance(outs[i], dict) or cases[i].get("expect_err"))]
         crashed += raised
-        isu = [i for i in isu if i not in raised]
+        isu = [i for i in isu if i not in raised and i not in predicted]
         off = compare_support(ctx, [cases[i] for i in isu], [outs[i] for i in isu], "main") if isu else []
         ctx.note(f"support stream (tolerance 1e-12, values not deciding): {len(isu)} transcendental expressions, {len(off)} outside the tolerance"
                  + (f": {[cases[isu[j]]['eq'] for j in off[:3]]}" if off else "") + f"; raised {len(raised)}")
@@ -960,6 +1166,7 @@ def check(ctx):
     ex = [cases[i] for i in K("expr")]
     nt = {canon(c["ast"]) for c in ex if nontrivial(c)}
     hist = dict(expr=len(ex), lhs_equations=sum(len(cases[i]["eqs"]) for i in K("lhs")), surgery_calls=sum(len(cases[i]["items"]) for i in K("surg")),
+                repairs_assumed_in_tree=sorted(FIXED), variable_names=sum(len(cases[i]["names"]) for i in K("names")),
                 helper_call_equations=len(K("call")), support=len(K("support")), vector_helper_equations=len(K("vec")),
                 depth={d: sum(1 for c in ex if depth_of(tuple_ast(c["ast"])) == d) for d in range(1, 5)},
                 generated_looking_pairs=sum(1 for c in ex if any(n + "_v1" in c["names"] + [c["lhs"]] for n in c["names"] + [c["lhs"]])),
